@@ -77,7 +77,10 @@ def monitor_op(op, d0, d1, texts, dags_dir):
         if not ok and added:
             fail("refused create left a file behind", **{"class": "create-result"})
     elif kind == "save":
-        valid = texts[op["text"]]["valid"]
+        valid = texts[op["text"]]["load"]   # independent oracle: the same bytes through dag.LoadWithoutEval
+        if ok and op.get("loads") is False and not dotted(op["name"]):   # (a.b is looked up at a.b.yaml: F18c)
+            fail("after an accepted save the stored definition does not load any more (%s)" % op.get("load_err", "")[:120],
+                 **{"class": "save-invalid"})
         if not hist_same or not flags_same:
             fail("save touched history or flags", **{"class": "save-side-effect"})
         if removed or added:
@@ -210,7 +213,7 @@ CODES = {1: "result class", 2: "output", 3: "definition files", 4: "history file
 
 
 def model_check(ctx, cases, texts):
-    valid = clist([cstring(t) for t, v in sorted(texts.items()) if v["valid"]])
+    valid = clist([cstring(t) for t, v in sorted(texts.items()) if v["load"]])
     meta = clist([cstring(t) for t, v in sorted(texts.items()) if v["meta"]])
     header = ("From Coq Require Import List String Ascii ZArith.\nImport ListNotations.\nOpen Scope string_scope.\n"
               "From BD.DagStore Require Import Model Check.\n"
@@ -313,11 +316,20 @@ def crash_enum(ctx, tool, pairs, pre_points):
             pos, name = killed_at(klog) if rc != 0 else (len(window) + 1, None)
             left = open(victim, "rb").read() if os.path.exists(victim) else None
             oth = open(other, "rb").read() if os.path.exists(other) else None
+            lrc, lout, _ = vlib.run_tool(tool, ["crash-list", d])
+            try:
+                listing = json.loads(lout.strip().split("\n")[-1])
+            except ValueError:
+                listing = {"listed": None, "files": None, "errs": -1}
+            for fn in os.listdir(os.path.join(d, "dags")):      # strays of this kill are not inherited by the next one
+                if fn not in ("victim.yaml", "victim2.yaml"):
+                    os.remove(os.path.join(d, "dags", fn))
             want = new if accepted else old
             lcode = 0 if left == old else 1 if left == b"" else 2 if left == want else 3
             r = {"kind": "save-crash", "old": old_id, "new": new_id, "accepted": accepted, "syscall": s, "when": k, "left_code": lcode,
                  "pos": pos, "window": window, "killed": rc != 0, "left": classify_bytes(left, old, new if accepted else old),
                  "left_len": None if left is None else len(left), "neighbour_intact": oth == other_b,
+                 "listed": listing.get("listed"), "list_errs": listing.get("errs"), "files": listing.get("files"),
                  "uninterrupted": "new" if new != old else "old"}
             recs.append(r)
             return r
@@ -353,28 +365,34 @@ def crash_enum(ctx, tool, pairs, pre_points):
     return recs
 
 
+WINDOW = ["openat", "write", "fchmod", "fsync", "close", "renameat"]
+
+
 def crash_model(ctx, recs, texts):
     """The model's crash states of UpdateSpec against the bytes left by the killed runs.  The window
-    [openat, write, close] is primitive steps 3..5 of save_prims (after Validate and Exists)."""
+    [openat(O_EXCL) temp, write, fchmod, fsync, close, renameat] is primitive steps 3..8 of save_prims
+    (after Validate and Exists); a kill on entry of call j of the window = 2 + j completed steps."""
     want = []
     for r in recs:
         if r["pos"] is None:
             continue
         if r["pos"] < 0:
             n = 0
-        elif r["window"] == ["openat", "write", "close"]:
-            n = min(2 + r["pos"], 5)
+        elif r["window"] == WINDOW:
+            n = min(2 + r["pos"], 8)
         elif r["window"] == []:
-            n = 5
+            n = 8
         else:
-            ctx.fail("correspondence", "UpdateSpec no longer performs open(O_TRUNC), write, close: the primitive steps "
-                     "of the model (save_prims) do not describe it", {"window": r["window"], "pair": [r["old"], r["new"]]})
+            ctx.fail("correspondence", "UpdateSpec no longer performs create-temp, write, chmod, sync, close, rename: the "
+                     "primitive steps of the model (save_prims) do not describe it", {"window": r["window"], "pair": [r["old"], r["new"]]})
             return
         want.append((r, n))
     # text ids stand for the contents, except the empty text, which the crash states compare with
     tid = lambda t: "" if texts[t]["len"] == 0 else t
-    valid = clist([cstring(tid(t)) for t, v in sorted(texts.items()) if v["valid"]])
-    items = clist(["crash_code (in_ids %s) %s \"victim\" %s %s %d" % (valid, cstring(L.MDIR), cstring(tid(r["old"])), cstring(tid(r["new"])), n)
+    valid = clist([cstring(tid(t)) for t, v in sorted(texts.items()) if v["load"]])
+    items = clist(["(crash_code (in_ids %s) %s \"victim\" %s %s %d, List.length (crash_listed (in_ids %s) (in_ids %s) %s \"victim\" %s %s %d))"
+                   % (valid, cstring(L.MDIR), cstring(tid(r["old"])), cstring(tid(r["new"])), n,
+                      valid, valid, cstring(L.MDIR), cstring(tid(r["old"])), cstring(tid(r["new"])), n)
                    for r, n in want])
     txt = ("From Coq Require Import List String.\nImport ListNotations.\nOpen Scope string_scope.\n"
            "From BD.DagStore Require Import Model Check.\nDefinition M := Eval vm_compute in %s.\nPrint M.\n" % items)
@@ -383,7 +401,9 @@ def crash_model(ctx, recs, texts):
     if res is None or len(res) != len(want):
         ctx.fail("correspondence", "crash states of the model could not be evaluated", {"log": out[-1500:]})
         return
-    for (r, n), m in zip(want, res):
+    for (r, n), (m, nlisted) in zip(want, res):
+        if nlisted != 1:
+            ctx.fail("correspondence", "the model lists %d DAGs in a crash state of a save of the only definition" % nlisted, r)
         if r["left_code"] != m:
             ctx.fail("correspondence", "bytes left by a kill before primitive step %d of UpdateSpec differ from the model's "
                      "crash state (impl %s = code %d, model code %d; 0 old, 1 empty, 2 new, 3 other)" % (n, r["left"], r["left_code"], m), r)
@@ -432,7 +452,16 @@ def shrink(ctx, tool, c, i, cls, texts):
     return slim(rows[0]) if rows else slim(c, i)
 
 
+def fragment_is_truth(ctx):
+    """known_findings.d/<id>.json is the source of truth for this property's findings: the merged known_findings.json
+    may lag behind (an entry repaired since - state "fixed" - must suppress nothing)."""
+    frag = os.path.join(vlib.VERIF, "known_findings.d", ctx.pid + ".json")
+    if os.path.exists(frag):
+        ctx.known = [k for k in json.load(open(frag)) if k.get("property") == ctx.pid and k.get("state") == "known"]
+
+
 def run(ctx, replay_cases=None):
+    fragment_is_truth(ctx)
     ctx.proofs(extra=["DagStore/Check.vo"])
     tool, out, _ = vlib.go_build("store", ctx.scratch)
     if tool is None:
@@ -458,8 +487,8 @@ def run(ctx, replay_cases=None):
     texts = {t["id"]: t for t in head["texts"]}
     for t in texts.values():
         if t["valid"] != t["load"]:
-            ctx.fail("correspondence", "dag.LoadYAML and dag.LoadWithoutEval disagree on a text of the pool (the model uses "
-                     "one verdict for both)", {"text": t["id"], "kind": t["kind"]})
+            ctx.fail("correspondence", "dag.LoadYAML (the validation inside UpdateSpec) and dag.LoadWithoutEval (the independent "
+                     "oracle) disagree on a text of the pool; the model uses one verdict for both", {"text": t["id"], "kind": t["kind"]})
     if not texts["T0"]["valid"]:
         ctx.fail("monitor", "the template text written by CreateDAG is not a valid definition", {"text": "T0"})
 
@@ -503,7 +532,7 @@ def run(ctx, replay_cases=None):
                      "extension' on a generator name", {"name": n, "name_okb": okb})
 
     # ---- save-crash ------------------------------------------------------------------------
-    pairs = [("T1", "T2"), ("T2", "T3"), ("T1", "T6"), ("T5", "T1"), ("T1", "T5"), ("T2", "T4")]
+    pairs = [("T1", "T2"), ("T2", "T3"), ("T1", "T6"), ("T5", "T1"), ("T1", "T5"), ("T2", "T4"), ("T1", "T9")]
     if ctx.tier == "thorough":
         pairs += [("T6", "T1"), ("T0", "T7"), ("T6", "T3"), ("T7", "T0")]
     recs = crash_enum(ctx, tool, pairs, pre_points=6 if ctx.tier == "quick" else 400)
@@ -512,6 +541,10 @@ def run(ctx, replay_cases=None):
         ckinds[r["left"]] = ckinds.get(r["left"], 0) + 1
         if not r["neighbour_intact"]:
             ctx.fail("monitor", "a kill during UpdateSpec damaged another definition file", r, cls={"class": "save-crash-neighbour"})
+        if r["listed"] != ["victim.yaml", "victim2.yaml"] or r["list_errs"] != 0:
+            ctx.fail("monitor", "after a kill on entry of %s #%d during UpdateSpec the DAG listing is %s with %s errors (files: %s): "
+                     "a left-over of the save is shown as a DAG, or a DAG is missing" % (r["syscall"], r["when"], r["listed"], r["list_errs"], r["files"]),
+                     r, cls={"class": "save-crash-listing"})
         if r["left"] not in ("old", "new"):
             in_window = r["pos"] is not None and 0 <= r["pos"] <= len(r["window"])
             cls = {"class": "save-killed-after-truncate" if (r["left"] == "prefix-of-new" and in_window) else "save-crash-garbage"}
